@@ -139,7 +139,9 @@ def run_case(ctx, repo, case):
             ctx.violation("alternative.rejected", "%r / %r rejected: %r" % (
                 case["alt"], case["desig"], exc), text=case["alt"])
             return
-        if not same_components(a, comps(b)) or (a == b) is not True or \
+        decimal = any(F(v).denominator != 1 for v in case["want"].values())
+        if not same_components(a, comps(b)) or \
+                (not decimal and (a == b) is not True) or \
                 not same_components(b, case["want"]):
             ctx.violation("alternative.wrong", "%r parsed as %r but %r "
                           "parsed as %r" % (case["alt"], comps(a),
